@@ -1,5 +1,6 @@
 import Driver.C01
 import Driver.C02
+import Driver.C04
 import Driver.C06
 import Driver.C07
 import Driver.C08
@@ -28,6 +29,7 @@ def dispatch (prop : String) (args : List String) (impl : String) : Verdict :=
   | "C01" => C01.handleC01 args impl
   | "C02" => C02.handle args impl
   | "C03" => C01.handleC03 args impl
+  | "C04" => C04.handle args impl
   | "C05" => C01.handleC05 args impl
   | "C06" => C06.handle args impl
   | "C07" => C07.handle args impl
